@@ -29,7 +29,7 @@ CONSTANTS
     Deviations     \* {} = design; see below
 
 AllDeviations == {"LeakDepthContainer", "LeakDepthOnLimit", "LeakScopeOnError",
-                  "RetryLimitErrors", "StaleLookup", "LateEnv"}
+                  "RetryLimitErrors", "StaleLookup", "LateEnv", "AtomicGroupRetry"}
 
 ASSUME Deviations \subseteq AllDeviations
 
@@ -152,9 +152,11 @@ AddNode ==
           /\ doc' = AppendAt(doc, d, [nd EXCEPT !.id = Sz + 1])
     /\ UNCHANGED <<lim, phase, stack, ret, depth, scopes, emap, omap, inSpecs, rng, result, out, passes>>
 
+DoneSet == {i \in Ids : emap[i] = "done"}
 NewPe(kids) == [t |-> "pe", kids |-> kids, todo |-> [i \in 1..Len(kids) |-> i], i |-> 1,
                 rem |-> <<>>, res |-> [i \in 1..Len(kids) |-> <<>>],
-                snap |-> [i \in 1..Len(kids) |-> <<>>], cur |-> <<>>, pass |-> 1]
+                snap |-> [i \in 1..Len(kids) |-> <<>>], cur |-> <<>>, pass |-> 1,
+                seen |-> DoneSet]
 
 NewEl(nd, inst) == [t |-> "el", nd |-> nd, ph |-> "enter", it |-> 0, lvv |-> 0, acc |-> <<>>,
                     sd |-> depth, sh |-> Len(scopes), ss |-> inSpecs, inst |-> inst]
@@ -245,11 +247,15 @@ PassEnd ==
                /\ ret' = RetOk(ConcatRes(f.res, 1))
                /\ passes' = passes
           ELSE IF Len(f.rem) = Len(f.todo)
-          THEN \* no progress: MultiError
+                  /\ (Dev("AtomicGroupRetry") \/ DoneSet \subseteq f.seen)
+          THEN \* no progress: MultiError.  Design: progress is a shorter pending
+               \* list OR an element positioned for the first time (possibly inside
+               \* a failed container); the pinned code only counts the former.
                /\ stack' = Below
                /\ ret' = RetFail("ref")
                /\ passes' = passes
-          ELSE /\ stack' = SetTopFrame([f EXCEPT !.todo = f.rem, !.rem = <<>>, !.i = 1, !.pass = @ + 1])
+          ELSE /\ stack' = SetTopFrame([f EXCEPT !.todo = f.rem, !.rem = <<>>, !.i = 1, !.pass = @ + 1,
+                                                 !.seen = @ \cup DoneSet])
                /\ ret' = RetNone
                /\ passes' = passes + 1
     /\ UNCHANGED <<doc, lim, phase, depth, scopes, emap, omap, inSpecs, rng, result, out>>
@@ -406,7 +412,7 @@ ReusePush ==
           THEN /\ FailWith("ref")
           ELSE /\ scopes' = Append(scopes, ScopeOf(f.nd.loc))
                /\ stack' = Append(SetTopFrame([f EXCEPT !.ph = "wait"]),
-                                  [NewEl(NodeById(doc, h), TRUE) EXCEPT !.sh = Len(scopes) + 1])
+                                  [NewEl(Instance(NodeById(doc, h), f.nd), TRUE) EXCEPT !.sh = Len(scopes) + 1])
                /\ UNCHANGED <<ret, depth, inSpecs>>
     /\ UNCHANGED <<doc, lim, phase, emap, omap, rng, result, out, passes>>
 
@@ -502,7 +508,9 @@ EvalOnce ==
 PendingShrinks ==
     [][(Running /\ stack' # <<>> /\ Len(stack') = Len(stack) /\ Top.t = "pe"
             /\ stack'[Len(stack')].t = "pe" /\ stack'[Len(stack')].pass > Top.pass)
-        => Len(stack'[Len(stack')].todo) < Len(Top.todo)]_vars
+        => \/ Len(stack'[Len(stack')].todo) < Len(Top.todo)
+           \/ /\ Len(stack'[Len(stack')].todo) = Len(Top.todo)
+              /\ Top.seen # stack'[Len(stack')].seen /\ Top.seen \subseteq stack'[Len(stack')].seen]_vars
 
 Finishes == (phase = "run") ~> (phase = "done")
 
